@@ -164,6 +164,45 @@ type provider struct {
 	mu    sync.Mutex
 	calls []provCall
 	occ   map[string]int
+
+	// hold support: when armed, the next Instance call blocks (after its bookkeeping) until the
+	// harness closes releaseC or the context ends
+	armed    bool
+	holding  bool
+	heldIps  []string
+	releaseC chan struct{}
+}
+
+// arm makes the next provider call block until release; later outcomes are drawn from tail.
+func (p *provider) arm(tail *rand.Rand) {
+	p.mu.Lock()
+	p.armed, p.releaseC, p.tail = true, make(chan struct{}), tail
+	p.mu.Unlock()
+}
+
+func (p *provider) held() ([]string, bool) {
+	p.mu.Lock()
+	defer p.mu.Unlock()
+	return append([]string(nil), p.heldIps...), p.holding
+}
+
+func (p *provider) release() {
+	p.mu.Lock()
+	if p.releaseC != nil {
+		close(p.releaseC)
+		p.releaseC = nil
+	}
+	p.mu.Unlock()
+}
+
+func (p *provider) occAll() map[string]int {
+	p.mu.Lock()
+	defer p.mu.Unlock()
+	o := map[string]int{}
+	for k, v := range p.occ {
+		o[k] = v
+	}
+	return o
 }
 
 const outcomes = "FPEXY" // full, partial, empty, error, error+partial
@@ -240,6 +279,18 @@ func (p *provider) Instance(ctx context.Context, ips ...gostatsd.Source) (map[go
 		res, err = nil, errors.New("scripted provider failure")
 	case 'Y':
 		err = errors.New("scripted provider failure with partial data")
+	}
+	if p.armed {
+		p.armed, p.holding, p.heldIps = false, true, c.Ips
+		rel := p.releaseC
+		p.r.Event("provider_calls_held_open", 1)
+		p.mu.Unlock()
+		select {
+		case <-rel:
+		case <-ctx.Done():
+		}
+		p.mu.Lock()
+		p.holding = false
 	}
 	c.Ret = wallNow()
 	p.calls = append(p.calls, c)
@@ -972,6 +1023,356 @@ func diffMultisets(want, got map[string][]string) string {
 }
 
 // ---------------------------------------------------------------------------------------------
+// held-provider scenarios: a provider call stays blocked across refresh ticks
+
+var heldRegime = regime{"held-hours", gostatsd.CacheOptions{CacheRefreshPeriod: 200 * time.Microsecond, CacheTTL: time.Hour, CacheNegativeTTL: 10 * time.Minute, CacheEvictAfterIdlePeriod: 2 * time.Hour}}
+
+type held struct {
+	*seq
+	minExp, maxExp map[string]int  // bounds of provider occurrences per source
+	pending        map[string]bool // a refresh lookup for the source is queued or in flight
+	evictedInHold  int
+	ticksInHold    int
+}
+
+// between returns a lattice instant in [lo, hi] (and not before the pending ticker deadline).
+func (s *seq) between(lo, hi time.Time) (time.Time, bool) {
+	p := s.opts.CacheRefreshPeriod
+	if lo.Before(s.next) {
+		lo = s.next
+	}
+	if hi.Before(lo) {
+		return time.Time{}, false
+	}
+	w := s.t0m.Add(lo.Add(hi.Sub(lo)/2).Sub(s.t0m) / p * p)
+	if w.Before(lo) {
+		w = w.Add(p)
+	}
+	if w.After(hi) {
+		return time.Time{}, false
+	}
+	return w, true
+}
+
+func (s *seq) margin() time.Duration {
+	if m := s.opts.CacheRefreshPeriod; m > 200*time.Microsecond {
+		return m
+	}
+	return 200 * time.Microsecond
+}
+
+func (s *seq) gap() {
+	s.logf("gap")
+	time.Sleep(4 * time.Millisecond) // not synchronisation: separates real-clock readings of neighbouring steps
+}
+
+// tickHeld fires one refresh tick (stamped with the pending deadline) while the provider call is held.
+// No answer can be produced during the hold, so the cache changes only by eviction.
+func (h *held) tickHeld(target time.Time) {
+	s := h.seq
+	d := s.next
+	var keys, evicted, requeried, again []string
+	for k := range s.entries {
+		keys = append(keys, k)
+	}
+	sort.Strings(keys)
+	for _, k := range keys {
+		ev, rq, _ := s.decide(s.entries[k], d)
+		switch {
+		case ev:
+			evicted = append(evicted, k)
+		case rq && h.pending[k]:
+			again = append(again, k)
+		case rq:
+			requeried = append(requeried, k)
+		}
+	}
+	s.logf("tick-while-provider-call-held[t0+%v evicts=%v requeries=%v past-ttl-with-lookup-outstanding=%v]", d.Sub(s.t0m), evicted, requeried, again)
+	for _, k := range evicted {
+		delete(s.entries, k)
+		s.sawEvict = true
+	}
+	for _, k := range requeried {
+		h.minExp[k]++
+		h.maxExp[k]++
+		h.pending[k] = true
+		s.sawRequery = true
+	}
+	for _, k := range again {
+		h.maxExp[k]++ // the tree queues it once more; the statement does not say either way
+	}
+	h.evictedInHold += len(evicted)
+	h.ticksInHold++
+	s.r.Event("model_evictions", len(evicted))
+	s.r.Event("model_evictions_while_lookup_outstanding", len(evicted))
+	s.ticked = true
+	s.fire(target)
+	s.sync(false) // barrier: doRefresh has run
+	if !s.live() {
+		return
+	}
+	if _, holding := s.prov.held(); !holding {
+		s.inconclusive = "provider-call-no-longer-held"
+		return
+	}
+	for _, k := range evicted {
+		inst, hit := s.ccp.Peek(gostatsd.Source(k))
+		s.r.Event("peeks", 1)
+		s.logf("peek[%s]=%s,%v", k, instString(inst), hit)
+		if hit {
+			s.violation("idle-entry-not-evicted-while-lookup-outstanding", fmt.Sprintf("Peek(%s) is still a hit (%s) after the refresh tick at t0+%v, at which the entry had been unused for longer than the idle period %v; a provider call has been blocked since an earlier tick and refresh lookups are queued behind it", k, instString(inst), d.Sub(s.t0m), s.opts.CacheEvictAfterIdlePeriod))
+			return
+		}
+	}
+	s.sync(true) // gauges go down with the evictions although a lookup is outstanding
+}
+
+func (h *held) tickHeldTo(w time.Time) {
+	s := h.seq
+	if w.After(s.next) {
+		if s.ambiguousAt(s.next) {
+			s.inconclusive = "pending-deadline-ambiguous-during-hold"
+			return
+		}
+		h.tickHeld(w.Add(-s.opts.CacheRefreshPeriod))
+		if !s.live() {
+			return
+		}
+	}
+	if !s.next.Equal(w) || s.ambiguousAt(w) {
+		s.inconclusive = "aimed-tick-became-ambiguous"
+		return
+	}
+	h.tickHeld(w)
+}
+
+func runHeld(r *mon.Run, idx int, batch int, wd time.Duration) *held {
+	rng := r.Rand(fmt.Sprintf("held-%d", idx))
+	e, ok := newEnv(r, heldRegime.opts, batch, "", nil)
+	s := &seq{env: e, idx: idx, script: "held", batch: batch, reg: heldRegime, rng: rng, wd: wd, entries: map[string]*entry{}, exp: map[string]int{}}
+	h := &held{seq: s, pending: map[string]bool{}}
+	defer s.close()
+	if !ok {
+		s.inconclusive = "refresh-ticker-not-created"
+		return h
+	}
+	na := batch + 2 + rng.Intn(2)
+	var grpA, grpB []string
+	for i := 0; i < na+2; i++ {
+		src := fmt.Sprintf("10.4.0.%d", i+1)
+		s.pool = append(s.pool, src)
+		if i < na {
+			grpA = append(grpA, src)
+		} else {
+			grpB = append(grpB, src)
+		}
+	}
+	idle, m := s.opts.CacheEvictAfterIdlePeriod, s.margin()
+	// A: resolved first, used last. B1, B2: resolved later (so they pass their TTL later), never used again.
+	s.submitList(grpA)
+	for _, b := range grpB {
+		if s.live() {
+			s.gap()
+			s.submitList([]string{b})
+		}
+	}
+	if s.live() {
+		s.gap()
+	}
+	for _, a := range grpA {
+		if s.live() {
+			s.peek(a, "")
+		}
+	}
+	if !s.live() {
+		return h
+	}
+	// tick 1: every A entry is past its TTL, B is not, nothing is idle
+	var lo, hi time.Time
+	for _, a := range grpA {
+		if x := s.entries[a].expHi.Add(m); x.After(lo) {
+			lo = x
+		}
+	}
+	hi = s.entries[grpB[0]].expLo.Add(-m)
+	w1, ok := s.between(lo, hi)
+	if !ok || s.ambiguousAt(w1) {
+		s.inconclusive = "held-no-unambiguous-instant"
+		return h
+	}
+	if w1.After(s.next) {
+		if s.ambiguousAt(s.next) {
+			s.inconclusive = "pending-deadline-ambiguous"
+			return h
+		}
+		s.tick(w1.Add(-s.opts.CacheRefreshPeriod))
+		if !s.live() {
+			return h
+		}
+		if !s.next.Equal(w1) || s.ambiguousAt(w1) {
+			s.inconclusive = "aimed-tick-became-ambiguous"
+			return h
+		}
+	}
+	h.minExp, h.maxExp = map[string]int{}, map[string]int{}
+	for _, src := range s.pool {
+		h.minExp[src], h.maxExp[src] = s.exp[src], s.exp[src]
+	}
+	s.prov.arm(r.Rand(fmt.Sprintf("held-%d-provider", idx)))
+	for _, a := range grpA {
+		if _, rq, _ := s.decide(s.entries[a], w1); !rq {
+			s.inconclusive = "held-no-unambiguous-instant"
+			s.prov.release()
+			return h
+		}
+		h.minExp[a]++
+		h.maxExp[a]++
+		h.pending[a] = true
+	}
+	s.sawRequery = true
+	s.logf("tick[t0+%v requeries=%v] provider armed: the next call blocks", w1.Sub(s.t0m), grpA)
+	s.ticked = true
+	s.fire(w1)
+	defer s.prov.release()
+	if !mon.WaitUntil(s.wd, func() bool { _, holding := s.prov.held(); return holding }) {
+		s.stuck("never-queried:after-ttl-expiry-tick", fmt.Sprintf("%d entries were past their TTL at the refresh tick but no provider call was made", len(grpA)))
+		return h
+	}
+	heldIps, _ := s.prov.held()
+	s.logf("provider call held open with %v; %d refresh lookups queue behind it", heldIps, len(grpA)-len(heldIps))
+	s.sync(true)
+	// ticks 2.. : one B entry after the other passes its idle deadline while the call stays blocked
+	for i, b := range grpB {
+		if !s.live() {
+			return h
+		}
+		lo = s.entries[b].laHi.Add(idle).Add(m)
+		if i+1 < len(grpB) {
+			hi = s.entries[grpB[i+1]].laLo.Add(idle).Add(-m)
+		} else {
+			hi = s.entries[grpA[0]].laLo.Add(idle).Add(-m)
+		}
+		w, ok := s.between(lo, hi)
+		if !ok || s.ambiguousAt(w) {
+			s.inconclusive = "held-no-unambiguous-instant"
+			return h
+		}
+		if ev, _, _ := s.decide(s.entries[b], w); !ev {
+			s.inconclusive = "held-no-unambiguous-instant"
+			return h
+		}
+		h.tickHeldTo(w)
+	}
+	if !s.live() {
+		return h
+	}
+	// release: every outstanding query gets exactly one answer
+	before := s.prov.occAll()
+	s.logf("release the held call")
+	s.prov.release()
+	quiet := func() bool {
+		occ := s.prov.occAll()
+		for _, src := range s.pool {
+			if occ[src] < h.minExp[src] || s.dr.count(src) != occ[src] {
+				return false
+			}
+		}
+		return true
+	}
+	stable := false
+	for try := 0; try < 8 && !stable; try++ {
+		if !mon.WaitUntil(s.wd, quiet) {
+			break
+		}
+		o1 := s.prov.occAll()
+		time.Sleep(15 * time.Millisecond) // observation window: the dispatcher batches for 10 ms
+		o2 := s.prov.occAll()
+		stable = quiet()
+		for k, v := range o2 {
+			if o1[k] != v {
+				stable = false
+			}
+		}
+	}
+	hiT := wallNow()
+	occ := s.prov.occAll()
+	for _, src := range s.pool {
+		a := s.dr.count(src)
+		switch {
+		case a > occ[src]:
+			s.violation("more-answers-than-queries", fmt.Sprintf("after the held call was released: source %s was queried %d times but %d answers arrived on InfoSource", src, occ[src], a))
+			return h
+		case occ[src] > h.maxExp[src]:
+			s.violation("unexpected-provider-query", fmt.Sprintf("after the held call was released: source %s appears in %d provider calls (%d before the release); submissions plus every tick at which it was past its TTL give at most %d", src, occ[src], before[src], h.maxExp[src]))
+			return h
+		}
+	}
+	if !stable {
+		for _, src := range s.pool {
+			if occ[src] < h.minExp[src] {
+				s.stuck("never-queried:after-release", fmt.Sprintf("source %s was past its TTL at a refresh tick while a provider call was blocked; after the release it appears in %d provider calls, expected at least %d", src, occ[src], h.minExp[src]))
+				return h
+			}
+		}
+		for _, src := range s.pool {
+			if a := s.dr.count(src); a < occ[src] {
+				s.stuck("answer-missing", fmt.Sprintf("after the held call was released: source %s was queried %d times but only %d answers arrived on InfoSource", src, occ[src], a))
+				return h
+			}
+		}
+		s.inconclusive = "held-run-not-quiescent"
+		return h
+	}
+	for _, src := range s.pool {
+		s.exp[src] = occ[src]
+	}
+	s.applyCalls(hiT)
+	if s.live() {
+		s.sync(true)
+	}
+	for _, src := range s.pool {
+		if s.live() {
+			s.peek(src, "after the held provider call was released and every lookup answered")
+		}
+	}
+	if s.live() {
+		s.checkAnswers()
+	}
+	return h
+}
+
+func heldCase(r *mon.Run, idx int) (abort bool) {
+	batch := 1 + idx%2
+	r.Case("held %d batch=%d", idx, batch)
+	h := runHeld(r, idx, batch, 4*time.Second)
+	r.Eval(1)
+	s := h.seq
+	switch {
+	case s.bad:
+		return false
+	case s.progress != "":
+		h2 := runHeld(r, idx, batch, 4*time.Second)
+		if h2.progress == s.progress {
+			r.Violation(s.progress, h2.progressDetail+"\n(reproduced twice with a 4 s watchdog each)", h2.replay())
+			return true
+		}
+		r.Inconclusive("watchdog:" + s.progress)
+		return false
+	case s.inconclusive != "":
+		r.Inconclusive(s.inconclusive)
+		return false
+	}
+	r.Event("held_histories", 1)
+	if h.evictedInHold >= 1 && h.ticksInHold >= 2 {
+		r.Nontrivial(fmt.Sprintf("held:b%d:sources=%d:evicted-during-hold=%d:ticks-during-hold=%d:failedrefresh=%v", batch, len(s.pool), h.evictedInHold, h.ticksInHold, s.sawFailedRefresh))
+		if r.WantSample() && idx == 0 {
+			r.Sample(map[string]interface{}{"mode": "held-provider-call", "batch_limit": batch, "options": s.reg.name, "history": s.log})
+		}
+	}
+	return false
+}
+
+// ---------------------------------------------------------------------------------------------
 // concurrent mode
 
 type peekRec struct {
@@ -1338,7 +1739,7 @@ func seqCase(r *mon.Run, idx int, spec caseSpec) (abort bool) {
 func TestCheck(t *testing.T) {
 	r := mon.Start(t, "C12")
 	defer r.Finish()
-	r.Rule("sequential cases: every provider outcome script over {F full, P partial, E empty, X error, Y error+partial} up to length 2 (quick) / 4 (thorough) crossed with MaxInstancesBatch 1,2,5,16 (plus PRNG scripts of length 3-4 in quick), each wrapped in a PRNG history of 6-17 steps over {submit 1-4 sources incl. duplicates, Peek, refresh tick at an instant chosen in a region between the bracketed idle/TTL boundaries, 3 ms real gap}, cache options drawn from four sets (hours / tens of ms); concurrent cases: 2-4 submitting clients, 2 Peek readers, no-op refresh ticks, emitter, random provider outcomes. Non-trivial: the history contained a failed/empty refresh of a resolved source, a partial result with an absent source, or an eviction; distinct by (script, batch limit, which of these occurred); concurrent runs by (batch, clients, sources, failed-after-good).")
+	r.Rule("sequential cases: every provider outcome script over {F full, P partial, E empty, X error, Y error+partial} up to length 2 (quick) / 4 (thorough) crossed with MaxInstancesBatch 1,2,5,16 (plus PRNG scripts of length 3-4 in quick), each wrapped in a PRNG history of 6-17 steps over {submit 1-4 sources incl. duplicates, Peek, refresh tick at an instant chosen in a region between the bracketed idle/TTL boundaries, 3 ms real gap}, cache options drawn from four sets (hours / tens of ms); held cases: batch limit 1 or 2, batch+2..3 resolved sources brought past their TTL in one tick while the provider call that follows is held open by the harness, so refresh lookups queue behind it; during the hold two more resolved sources pass their idle deadline one after the other at further ticks (4 ticks in all incl. the mock's stale deadlines) and must be evicted (Peek miss, gauges) although a lookup is outstanding; after the release every query is answered once (a second enqueue of a source already queued is allowed, not required); concurrent cases: 2-4 submitting clients, 2 Peek readers, no-op refresh ticks, emitter, random provider outcomes. Non-trivial: the history contained a failed/empty refresh of a resolved source, a partial result with an absent source, or an eviction; distinct by (script, batch limit, which of these occurred); concurrent runs by (batch, clients, sources, failed-after-good).")
 	r.Assume("real-clock readings of the provider (expires, lastAccess) lie inside the wall-clock brackets recorded by the harness around the provider call / Peek; the wall clock does not jump during a case")
 	r.Assume("a stats emission is accepted by the Run goroutine only while it is parked in select (non-blocking hand-over), which is used as the barrier for a processed refresh tick")
 
@@ -1350,6 +1751,8 @@ func TestCheck(t *testing.T) {
 		if rc.Mode == "conc" {
 			r.Case("conc %d", rc.Index)
 			runConc(r, rc.Index, 10*time.Second)
+		} else if rc.Script == "held" {
+			heldCase(r, rc.Index)
 		} else {
 			seqCase(r, rc.Index, caseSpec{rc.Script, rc.Batch, rc.Focus})
 		}
@@ -1358,6 +1761,12 @@ func TestCheck(t *testing.T) {
 		return
 	}
 
+	for i, n := 0, r.N(24, 480); i < n; i++ {
+		if heldCase(r, i) {
+			r.Extra("aborted_after_progress_violation", 1)
+			return
+		}
+	}
 	list := caseList(r, r.Pick(2, 4), r.Pick(72, 0))
 	r.Extra("enumerated_script_length", r.Pick(2, 4))
 	for i, spec := range list {
